@@ -38,7 +38,9 @@ META = {
 
 CHARS = ["a", "B", "1", ".", "|", "+", "*", "(", ")", "[", "]", "\\", "'", '"', "#", " ", "S"]
 CURATED = ["if", "for", "c++", "a b", "a.b", "\\n", "\\\\", "S", "T1", "EMPTY", "STOP", "x_1", "ab", "a\\b", "'", '"',
-           "//", "/*", "a|b", "[a]", "(a)", ".*", "\\d", "a\nb", "\t"]
+           "//", "/*", "a|b", "[a]", "(a)", ".*", "\\d", "a\nb", "\t",
+           # letters outside ASCII, among them ones whose case folding is not their lower case
+           "stra\u00dfe", "\u00b5m", "\u03bb\u03cc\u03b3\u03bf\u03c2", "\u00fcber", "\u00c9t\u00e9", "\u017ft", "\u0416\u0436"]
 
 
 def esc(text, quote):
